@@ -97,7 +97,7 @@ func vMakeOperand(form int, tag string, lmin, lmax int, alpha string) vOperand {
 		// lower > upper is legal text: no key satisfies it (its evaluation is refused), so it
 		// contributes nothing to a disjunction and empties a conjunction; it is part of the
 		// lemma's domain, only the closure side condition is stated for non-inverted operands
-		op.wellFormed = bytes.Compare(op.lits[0], op.lits[1]) <= 0
+		op.wellFormed = bytes.Compare(op.lits[0], op.lits[1]) < 0 // equal boundaries are refused at evaluation too
 	case 7: // RANGE [A,nil]
 		op.text = "key >= " + lit(0)
 	case 8: // RANGE [nil,A]
